@@ -1,5 +1,6 @@
 """C02 — basis functions obey the Cox-de Boor definition for every index and sub-degree."""
 from common import *  # noqa: F401,F403
+import units
 
 RULE = ("random valid knot vectors (degree 0..4, mixed multiplicities, several intervals, big denominators), optional positive "
         "weights; every sub-degree j in 0..p, every parameter in {knots, ends, midpoints, random}; every index form "
@@ -21,6 +22,9 @@ def run_case(ctx, case):
     rec.case(case, nontrivial=nontrivial_kv(U))
     rec.count("degree", str(p))
     rec.count("weights", "rational" if W is not None else "spline")
+    ks_ = sorted(set(U))
+    if not any(y - x < F(1, 10**6) for x, y in zip(ks_[:-1], ks_[1:])):
+        units.tie_speval(rec, drv, case, U)
     # the basis over numerically equal python-int / float knots evaluated first (tables memoised on knot tuples would be theirs)
     if all(frac(x).denominator == 1 for x in U):
         impl(lambda: Function([int(x) for x in U])((int(U[0]) + int(U[-1])) / 2))
